@@ -55,7 +55,11 @@ func (viac) Generate(r *rand.Rand, o Opts) *Statement {
 		}
 		var text string
 		exp := Cents(value)
-		switch r.Intn(4) {
+		switch r.Intn(5) {
+		case 4: // exactly half a rappen: rounds away from zero
+			text = exp.Fixed() + "5"
+			exp = Cents(value + 1)
+			st.feature("half-rappen-tie")
 		case 0: // integer
 			exp = Cents(value / 100 * 100)
 			text = fmt.Sprintf("%d", value/100)
